@@ -1,6 +1,7 @@
 """C15 — host/controller messages survive serialisation."""
 from __future__ import annotations
 
+import contextlib
 import ctypes
 from typing import Any, Dict, List
 
@@ -13,7 +14,7 @@ LEVEL = "exploration"
 RULE = (
     "every class in MESSAGE_CLASSES and RETURN_MESSAGE_CLASSES (introspected), fields drawn over their declared "
     "ctypes widths with boundary bias, subroutine payloads from the C01 generator, arrays of length 0..64 with arbitrary "
-    "None patterns (some of length 255..700), all ErrorCode/Signal members; oracle: deserialize(bytes(m)) has the same class and equal fields; histories: one message serialised, changed (in-place list edits, attribute assignment), serialised again; one byte string decoded, the result changed, decoded again. "
+    "None patterns (some of length 255..700), all ErrorCode/Signal members, at the default log level or with the library logging at DEBUG / INFO; oracle: deserialize(bytes(m)) has the same class and equal fields; histories: one message serialised, changed (in-place list edits, attribute assignment), serialised again; one byte string decoded, the result changed, decoded again. "
     "Non-trivial = array with both defined and undefined entries, or any field at a width boundary, or a subroutine "
     "payload with >=1 instruction; distinct by (class, field values)"
 )
@@ -88,7 +89,35 @@ def st_message():
             if cls not in known:
                 raise HarnessError(f"message class {cls.__name__} has no generator")
             strategies.append(known[cls].map(lambda d, cls=cls, direction=direction: {"dir": direction, "cls": cls.__name__, "fields": d}))
-    return st.one_of(strategies)
+    # the process may run at any log level (the library logs what it serialises at DEBUG)
+    return st.tuples(st.one_of(strategies), st.sampled_from([None, None, None, "DEBUG", "INFO"])).map(lambda t: dict(t[0], log_level=t[1]))
+
+
+@contextlib.contextmanager
+def _log_level(level):
+    """run a block at a NetQASM log level, with the library's log output going nowhere"""
+    if level is None:
+        yield
+        return
+    import io
+    import logging
+
+    from netqasm.logging.glob import get_netqasm_logger
+
+    lg = get_netqasm_logger()
+    old = lg.level
+    swapped = [(h, h.setStream(io.StringIO())) for h in lg.handlers if isinstance(h, logging.StreamHandler)]
+    lg.setLevel(level)
+    was_disabled = logging.root.manager.disable
+    logging.disable(logging.NOTSET)  # (the runner silences all logging for the rest of the run)
+    try:
+        yield
+    finally:
+        logging.disable(was_disabled)
+        lg.setLevel(old)
+        for h, stream in swapped:
+            if stream is not None:
+                h.setStream(stream)
 
 
 def build_message(case):
@@ -120,6 +149,11 @@ def _plain(v):
 
 
 def check_message(case) -> None:
+    with _log_level(case.get("log_level")):
+        _check_message(case)
+
+
+def _check_message(case) -> None:
     from netqasm.backend import messages as M
     from netqasm.lang.parsing import deserialize
 
@@ -319,6 +353,8 @@ def shard(ctx: Ctx) -> None:
         if case["cls"] == "ReturnArrayMessage":
             vals = case["fields"]["values"]
             labels.append("array:mixed" if nt else ("array:empty" if not vals else "array:uniform"))
+        if case.get("log_level"):
+            labels.append("log-level:" + case["log_level"])
         small = len(str(case)) < 300
         if case["cls"] == "ReturnArrayMessage" and len(case["fields"]["values"]) > 64:
             labels.append("array:long" + (">256" if len(case["fields"]["values"]) > 256 else ""))
